@@ -135,6 +135,8 @@ def check_structures():
                 cnt["logic_props"] += 1
                 keys.append(f"lt:{n}.{a}")
                 lt = v._logic_type
+                if not isinstance(lt, (LogicType, str)):
+                    vio.append(_v("logic-type-wrong-enum", cls=n, attr=a, detail=f"{n}.{a} carries {lt!r}"))
                 if _lt_name(lt) != a:
                     vio.append(_v("logic-type-name-mismatch", cls=n, attr=a, detail=f"{n}.{a} reads logic type {_lt_name(lt)!r}"))
                 if a not in LogicType.__members__:
@@ -164,14 +166,19 @@ def check_structures():
                     cnt["pinned_compared"] += 1
                     if pin["slots"][a] != idx:
                         vio.append(_v("named-slot-renumbered", cls=n, attr=a, detail=f"{n}.{a} -> slot{idx}, pinned snapshot says slot{pin['slots'][a]}"))
-            # one slot logic type instruction per slot
-            for stn in ("Occupied",):
-                sv = getattr(v, stn, None)
+            # every slot logic type of this slot: the property name, the LogicSlotType member it carries and the
+            # instruction it builds must agree (in verbose mode a LogicType of the same name would print identically)
+            for stn, sv in props(v).items():
                 if isinstance(sv, T._DeviceSlotType):
+                    cnt["slot_type_props"] = cnt.get("slot_type_props", 0) + 1
+                    stv = sv._slot_type
+                    if not isinstance(stv, LogicSlotType) or stv.name != stn:
+                        vio.append(_v("slot-type-mismatch", cls=n, attr=f"{a}.{stn}", detail=f"{n}.{a}.{stn} carries {stv!r}"))
+                        continue
                     s1 = sv._load(out).to_string().split()
                     cnt["instr_built"] += 1
                     if s1 != ["ls", "r9", "d0", str(idx), stn]:
-                        vio.append(_v("slot-instruction", cls=n, attr=a, detail=str(s1)))
+                        vio.append(_v("slot-instruction", cls=n, attr=f"{a}.{stn}", detail=str(s1)))
         # two names for one index inside a class are fine; one name must not be shared by two indices (dict keys guarantee)
 
     for pn, p in plural_inst.items():
@@ -248,12 +255,17 @@ def check_structures():
                     vio.append(_v("batch-instruction", cls=pn, attr=a, detail=f"{s1} / {s2}"))
             elif isinstance(v, T._BaseSlotTypes):
                 cnt["slot_props"] += 1
-                sv = getattr(v, "Occupied", None)
-                if isinstance(sv, T._DevicesSlotType):
-                    s1 = sv._load(LogicBatchMethod.Sum)(out).to_string().split()
-                    cnt["instr_built"] += 1
-                    if s1 != ["lbs", "r9", f'HASH("{pname}")', str(int(v._slot_index)), "Occupied", "Sum"]:
-                        vio.append(_v("batch-slot-instruction", cls=pn, attr=a, detail=str(s1)))
+                for stn, sv in props(v).items():
+                    if isinstance(sv, T._DevicesSlotType):
+                        cnt["slot_type_props"] = cnt.get("slot_type_props", 0) + 1
+                        stv = sv._slot_type
+                        if not isinstance(stv, LogicSlotType) or stv.name != stn:
+                            vio.append(_v("slot-type-mismatch", cls=pn, attr=f"{a}.{stn}", detail=f"{pn}.{a}.{stn} carries {stv!r}"))
+                            continue
+                        s1 = sv._load(LogicBatchMethod.Sum)(out).to_string().split()
+                        cnt["instr_built"] += 1
+                        if s1 != ["lbs", "r9", f'HASH("{pname}")', str(int(v._slot_index)), stn, "Sum"]:
+                            vio.append(_v("batch-slot-instruction", cls=pn, attr=f"{a}.{stn}", detail=str(s1)))
 
     for n in singular:
         keys.append(f"reach:{n}")
